@@ -66,6 +66,9 @@ var go2coqTargets = []string{
 	"state:nick.parseModes",
 	// stage 4: the channel mode parser
 	"state:channel.parseModes",
+	// stage 6 (d): ONE statement of a function that is otherwise outside the subset — the
+	// if-statement of internalConnect whose condition calls hasPort (the address to dial)
+	"stmt:hasPort:Conn.internalConnect",
 }
 
 // fuel override per loop ("func#k", k-th condition loop of the function, from 0); the
@@ -599,6 +602,7 @@ type ctx struct {
 }
 
 type ftrans struct {
+	stmtSlice  bool // the body is a selected statement of the function: parameters and results are not translated
 	pi         *pkgInfo
 	info       *types.Info
 	sigs       map[string]*gsig
@@ -1786,6 +1790,18 @@ func (f *ftrans) stdcall(pkg, name string, x *ast.CallExpr) ex {
 			failf("strconv.Atoi of a %s", a.ty.coq())
 		}
 		return ex{pre: a.pre, t: "go_strconv_Atoi " + arg(a), p: 1, ty: tTuple, tys: []gtyp{tInt, tErr}}
+	}
+	if pkg == "net" && name == "JoinHostPort" && len(x.Args) == 2 {
+		if !f.emitted["$joinhostport"] {
+			f.emitted["$joinhostport"] = true
+			f.openSection()
+			*f.extra = append(*f.extra, "(* net.JoinHostPort — a variable, as every stdlib function that is not transliterated *)\nVariable go_net_JoinHostPort : bytes -> bytes -> bytes.\n")
+		}
+		pre, as := f.args(x.Args)
+		if as[0].ty != tStr || as[1].ty != tStr {
+			failf("net.JoinHostPort")
+		}
+		return ex{pre: pre, t: "go_net_JoinHostPort " + arg(as[0]) + " " + arg(as[1]), p: 1, ty: tStr}
 	}
 	if pkg != "strings" {
 		failf("call %s.%s", pkg, name)
@@ -3012,7 +3028,13 @@ func (f *ftrans) function(name string, fd *ast.FuncDecl) (text string) {
 				sig.params = append(sig.params, tRoot)
 				continue
 			}
+			if f.stmtSlice {
+				continue
+			}
 			failf("unnamed parameter")
+		}
+		if f.stmtSlice && !isRootParam(p) {
+			continue // not available to the selected statement: using it is unsupported
 		}
 		if isRootParam(p) {
 			prefix := fmt.Sprintf("#%d", i)
@@ -3032,7 +3054,7 @@ func (f *ftrans) function(name string, fd *ast.FuncDecl) (text string) {
 		binders = append(binders, "("+v.name+" : "+v.ty.coq()+")")
 	}
 	sig.variadic = gs.Variadic()
-	for i := 0; i < gs.Results().Len(); i++ {
+	for i := 0; i < gs.Results().Len() && !f.stmtSlice; i++ {
 		rt := gs.Results().At(i).Type()
 		if pt, ok := rt.(*types.Pointer); ok && gs.Results().Len() == 1 && goType(rt) == tBad {
 			if named, ok := pt.Elem().(*types.Named); ok {
@@ -3054,7 +3076,7 @@ func (f *ftrans) function(name string, fd *ast.FuncDecl) (text string) {
 	}
 	// named results are variables initialised to their zero value
 	var inits []*gvar
-	for i := 0; i < gs.Results().Len(); i++ {
+	for i := 0; i < gs.Results().Len() && !f.stmtSlice; i++ {
 		if r := gs.Results().At(i); r.Name() != "" && r.Name() != "_" {
 			inits = append(inits, f.declare(r))
 		}
@@ -3147,7 +3169,12 @@ func go2coq(pkgs map[string]*pkgInfo) string {
 	for _, target := range go2coqTargets {
 		// "name" is a function of package client, "state:name" one of package state
 		pn, name := "client", target
-		if i := strings.Index(target, ":"); i >= 0 {
+		stmtOf := ""
+		if strings.HasPrefix(target, "stmt:") {
+			// "stmt:<callee>:<function>": the one top-level if-statement of <function> whose condition calls <callee>
+			parts := strings.SplitN(target, ":", 3)
+			stmtOf, name = parts[1], parts[2]
+		} else if i := strings.Index(target, ":"); i >= 0 {
 			pn, name = target[:i], target[i+1:]
 		}
 		pi := pkgs[pn]
@@ -3155,6 +3182,9 @@ func go2coq(pkgs map[string]*pkgInfo) string {
 		var fd *ast.FuncDecl
 		if pi != nil {
 			fd = pi.funcs[name]
+		}
+		if stmtOf != "" {
+			name = name + "_if_" + stmtOf
 		}
 		coqName := "go_" + pn + "_" + coqIdent(name)
 		if fd == nil {
@@ -3179,6 +3209,33 @@ func go2coq(pkgs map[string]*pkgInfo) string {
 			f := &ftrans{pi: pi, info: pi.pkg.TypesInfo, sigs: sigs, vars: map[types.Object]*gvar{},
 				hid: map[string]*gvar{}, used: map[string]bool{}, synth: map[*ast.Ident]ex{},
 				structs: map[types.Object]*structVar{}, extra: &extra, emitted: emitted, section: &section, inMapRange: map[*gvar]bool{}, rangeKey: map[*gvar]types.Object{}, pkgs: pkgs, refOf: map[*gvar]refInfo{}}
+			if stmtOf != "" {
+				var pick []ast.Stmt
+				for _, st := range fd.Body.List {
+					ifs, ok := st.(*ast.IfStmt)
+					if !ok {
+						continue
+					}
+					found := false
+					ast.Inspect(ifs.Cond, func(n ast.Node) bool {
+						if c, ok := n.(*ast.CallExpr); ok {
+							if id, ok := c.Fun.(*ast.Ident); ok && id.Name == stmtOf {
+								found = true
+							}
+						}
+						return true
+					})
+					if found {
+						pick = append(pick, st)
+					}
+				}
+				if len(pick) != 1 {
+					failf("%d top-level if-statements calling %s in their condition", len(pick), stmtOf)
+				}
+				fd = &ast.FuncDecl{Recv: fd.Recv, Name: fd.Name, Type: fd.Type,
+					Body: &ast.BlockStmt{List: pick, Lbrace: pick[0].Pos(), Rbrace: pick[0].End()}}
+				f.stmtSlice = true
+			}
 			txt := f.function(name, fd)
 			for _, d := range extra {
 				b.WriteString(d + "\n")
